@@ -17,8 +17,9 @@ namespace PNode
 def name : PNode → Path | mk n _ _ => n
 def deps : PNode → DepMeta | mk _ m _ => m
 def children : PNode → List PNode | mk _ _ c => c
-/-- `port.ports != NULL` -/
-def hasPorts (p : PNode) : Bool := p.name.contains '/'
+/-- `port.ports != NULL`: the sub-tree ports of the sugar macros are named `name/` or `name#N/`;
+    a port with the enumeration inside its name (`v#3/en::T:F`) has a '/' but no table -/
+def hasPorts (p : PNode) : Bool := p.name.getLast? == some '/'
 end PNode
 
 def isDigit (c : Char) : Bool := '0' ≤ c && c ≤ '9'
@@ -67,9 +68,9 @@ def aproposIn : Nat → List PNode → Path → Option PNode
         match matchP p.name path with
         | some pathEnd =>
           -- (port.ports && strchr(path,'/')[1]) ? port.ports->apropos(path_end) : &port
-          match path.dropWhile (· ≠ '/') with
-          | _ :: _ :: _ => some (aproposIn fuel p.children pathEnd)
-          | _ => some (some p)
+          match p.hasPorts, path.dropWhile (· ≠ '/') with
+          | true, _ :: _ :: _ => some (aproposIn fuel p.children pathEnd)
+          | _, _ => some (some p)
         | none => none
       else none
     match first with
@@ -81,5 +82,46 @@ def aproposIn : Nat → List PNode → Path → Option PNode
 
 def aproposTree (root : List PNode) (path : Path) : Option DepMeta :=
   (aproposIn 16 root path).map (·.deps)
+
+/-- `std::string::find_last_of('/')` (as in `Deps.lastSlash`, which imports nothing from here) -/
+def lastSlashA : Path → Option Nat
+  | [] => none
+  | c :: r => match lastSlashA r with
+    | some k => some (k + 1)
+    | none => if c = '/' then some 0 else none
+
+/-- the lambda `whole` of `port_of_path`: the port's name matches the whole last path component, or is
+    the `name#N` array port whose base name the component is -/
+def wholeMatch (leaf : Path) (p : PNode) : Bool :=
+  (matchP p.name leaf).isSome || (leaf.isPrefixOf p.name && (p.name.drop leaf.length).head? == some '#')
+
+/-- `port_of_path` (savefile.cpp, fixes/C13-scan-deps-exact-port): `apropos`' hit, replaced by the sibling
+    that matches the whole last component when the hit only starts like it -/
+def portOfPathIn (root : List PNode) (path : Path) : Option PNode :=
+  match aproposIn 16 root path with
+  | none => none
+  | some port =>
+    match lastSlashA path with
+    | none => some port                  -- `scan_deps` only passes paths that contain a '/'
+    | some ls =>
+      let leaf := path.drop (ls + 1)
+      if leaf.isEmpty || wholeMatch leaf port then some port else
+      let table : Option (List PNode) :=
+        if ls > 0 then
+          match aproposIn 16 root (path.take (ls + 1)) with
+          | some par => if par.hasPorts then some par.children else none
+          | none => none
+        else some root
+      match table with
+      | none => some port
+      | some t => match t.find? (wholeMatch leaf) with
+        | some q => some q
+        | none => some port
+
+/-- what `scan_deps` reads for the path it passes: parent levels (`…/`) through `Ports::apropos`, the
+    path of a line or of a dependency through `port_of_path` -/
+def scanLookup (root : List PNode) (path : Path) : Option DepMeta :=
+  if path.getLast? == some '/' then aproposTree root path
+  else (portOfPathIn root path).map (·.deps)
 
 end Rtosc.Save
